@@ -125,7 +125,7 @@ impl World {
                     options = options.keepalive_timeout((KEEPALIVE_TICK * case.keepalive_timeout_ticks as u32).into());
                 }
             }
-            let (mux, taskdata) = Multiplexor::new_detailed::<_, std::time::Instant>(ws, options, rng);
+            let (mux, taskdata) = Multiplexor::new_detailed::<_, crate::props::keepalive::TI>(ws, options, rng); // timestamps from the virtual clock the Tick events advance (the real clock when a case has no keepalive)
             muxes[side] = Some(Rc::new(mux));
             let l2 = log.clone();
             sp.spawn(format!("mux{side}"), TaskKind::Mux(side), async move {
